@@ -20,6 +20,7 @@ import (
 type ReplaySpec struct {
 	Kind string // "step", "none"
 	Enc  *Encoding
+	Call string // Go statement that runs the real code (default cpu.Step())
 	Note string
 }
 
@@ -88,10 +89,9 @@ func cells(model map[string]uint64, arr string) map[uint64]uint64 {
 }
 
 // genStepReplay writes the test source for a Step-level counterexample.
-func (ld *Loaded) genStepReplay(model map[string]uint64, enc *Encoding, call string) string {
+func (ld *Loaded) genStepReplay(model map[string]uint64, enc *Encoding, call string, idx int) string {
 	var sb strings.Builder
-	sb.WriteString("package z80\n\nimport (\n\t\"fmt\"\n\t\"testing\"\n)\n\n")
-	sb.WriteString("func TestVerifReplay(t *testing.T) {\n")
+	fmt.Fprintf(&sb, "func vsReplayCase%d() {\n", idx)
 	sb.WriteString("\tg := new(VGhost)\n")
 	mem := cells(model, "G_Mem")
 	var ks []uint64
@@ -139,6 +139,9 @@ func (ld *Loaded) genStepReplay(model map[string]uint64, enc *Encoding, call str
 		sb.WriteString("\tcpu.RETIHandler = &VsRecHandler{G: g}\n")
 	}
 	sb.WriteString("\toldCPU := *cpu\n\toldG := new(VGhost)\n\t*oldG = *g\n")
+	if model["cpu__Interrupt_isnil"] != 0 || true {
+		sb.WriteString("\tcpu.Interrupt = nil\n")
+	}
 	sb.WriteString("\tfunc() {\n\t\tdefer func() {\n\t\t\tif r := recover(); r != nil {\n\t\t\t\tfmt.Printf(\"REPLAY-PANIC %v\\n\", r)\n\t\t\t}\n\t\t}()\n")
 	sb.WriteString("\t\t" + call + "\n\t}()\n")
 	sb.WriteString("\td := vsExecDiff(cpu, &oldCPU, g, oldG)\n")
@@ -185,26 +188,72 @@ func (r *Run) runReplay(ld *Loaded, testSrc string, pkgDir string) (string, erro
 	return string(out), err
 }
 
-// reportFailure handles one failed Layer-P obligation: replay, replay file, VIOLATION line.
-func (r *Run) reportFailure(ld *Loaded, o *OblResult, compMask func(string) bool) {
-	rf := &replayFile{Property: r.Prop, Obligation: o.Name, Failed: o.Failed, Model: map[string]string{}}
-	if o.res != nil {
-		rf.Solver = o.res.Backend
-		rf.SolverOut = truncate(o.res.Raw, 4000)
-		rel, _ := filepath.Rel(r.Verif, o.res.File)
-		rf.SMT = rel
-		for k, v := range o.res.Model {
-			rf.Model[k] = fmt.Sprintf("0x%x", v)
+// reportFailures handles the failed Layer-P obligations of a run: one batch
+// replay on the real code, one replay file and one VIOLATION line each.
+func (r *Run) reportFailures(ld *Loaded, os_ []*OblResult, compMask func(string) bool) {
+	if len(os_) == 0 {
+		return
+	}
+	rfs := make([]*replayFile, len(os_))
+	var cases []int
+	var body strings.Builder
+	for i, o := range os_ {
+		rf := &replayFile{Property: r.Prop, Obligation: o.Name, Failed: o.Failed, Model: map[string]string{}}
+		rfs[i] = rf
+		if o.res != nil {
+			rf.Solver = o.res.Backend
+			rf.SolverOut = truncate(o.res.Raw, 3000)
+			rel, _ := filepath.Rel(r.Verif, o.res.File)
+			rf.SMT = rel
+			for k, v := range o.res.Model {
+				rf.Model[k] = fmt.Sprintf("0x%x", v)
+			}
+		}
+		if o.Status == "failed" && o.vc != nil && o.vc.Replay != nil && o.res != nil && o.res.Model != nil && o.vc.Replay.Kind == "step" && len(cases) < 400 {
+			call := o.vc.Replay.Call
+			if call == "" {
+				call = "cpu.Step()"
+			}
+			src := ld.genStepReplay(o.res.Model, o.vc.Replay.Enc, call, i)
+			rf.Test = src
+			body.WriteString(src)
+			cases = append(cases, i)
 		}
 	}
-	path := r.replayPath(o.Name)
-	noInput := true
-	if o.Status == "failed" && o.vc != nil && o.vc.Replay != nil && o.res != nil && o.res.Model != nil {
-		switch o.vc.Replay.Kind {
-		case "step":
-			src := ld.genStepReplay(o.res.Model, o.vc.Replay.Enc, "cpu.Step()")
-			rf.Test = src
-			out, _ := r.runReplay(ld, src, ld.repo)
+	outByCase := map[int]string{}
+	if len(cases) > 0 {
+		var sb strings.Builder
+		sb.WriteString("package z80\n\nimport (\n\t\"fmt\"\n\t\"testing\"\n)\n\n")
+		sb.WriteString(body.String())
+		sb.WriteString("func TestVerifReplay(t *testing.T) {\n")
+		for _, c := range cases {
+			fmt.Fprintf(&sb, "\tfmt.Println(\"REPLAY-CASE %d\")\n\tvsReplayCase%d()\n", c, c)
+		}
+		sb.WriteString("\tfmt.Println(\"REPLAY-END\")\n}\n")
+		out, _ := r.runReplay(ld, sb.String(), ld.repo)
+		cur := -1
+		for _, ln := range strings.Split(out, "\n") {
+			if strings.HasPrefix(ln, "REPLAY-CASE ") {
+				fmt.Sscanf(ln, "REPLAY-CASE %d", &cur)
+				continue
+			}
+			if strings.HasPrefix(ln, "REPLAY-END") {
+				cur = -1
+			}
+			if cur >= 0 {
+				outByCase[cur] += ln + "\n"
+			}
+		}
+		if len(outByCase) == 0 {
+			for _, c := range cases {
+				outByCase[c] = truncate(out, 3000)
+			}
+		}
+	}
+	for i, o := range os_ {
+		rf := rfs[i]
+		noInput := true
+		if out, ok := outByCase[i]; ok {
 			rf.TestOutput = truncate(out, 6000)
 			if strings.Contains(out, "REPLAY-PANIC") || strings.Contains(out, "REPLAY-FRAME") {
 				rf.Reproduced = true
@@ -213,9 +262,7 @@ func (r *Run) reportFailure(ld *Loaded, o *OblResult, compMask func(string) bool
 				if strings.HasPrefix(ln, "REPLAY-DIFFMASK ") {
 					f := strings.Fields(ln)
 					if len(f) >= 2 && f[1] != "0x0" {
-						// reproduced if any component this property owns differs
-						names := strings.Fields(strings.Join(f[2:], " "))
-						for _, n := range names {
+						for _, n := range f[2:] {
 							if compMask == nil || compMask(n) {
 								rf.Reproduced = true
 							}
@@ -225,16 +272,17 @@ func (r *Run) reportFailure(ld *Loaded, o *OblResult, compMask func(string) bool
 			}
 			noInput = !rf.Reproduced
 		}
+		if o.Status != "failed" {
+			rf.Note = "the solver returned no counterexample (" + o.Note + "); the obligation is not discharged"
+		} else if noInput {
+			rf.Note = "the solver's model did not reproduce on the real code through the replay harness (or no harness exists for this obligation kind)"
+		}
+		path := r.replayPath(o.Name)
+		data, _ := json.MarshalIndent(rf, "", " ")
+		os.MkdirAll(filepath.Dir(path), 0o755)
+		os.WriteFile(path, append(data, '\n'), 0o644)
+		r.violation(o.Name, path, noInput)
 	}
-	if o.Status != "failed" {
-		rf.Note = "the solver returned no counterexample (" + o.Note + "); the obligation is not discharged"
-	} else if noInput {
-		rf.Note = "the solver's model did not reproduce on the real code through the replay harness (or no harness exists for this obligation kind)"
-	}
-	data, _ := json.MarshalIndent(rf, "", " ")
-	os.MkdirAll(filepath.Dir(path), 0o755)
-	os.WriteFile(path, append(data, '\n'), 0o644)
-	r.violation(o.Name, path, noInput)
 }
 
 func truncate(s string, n int) string {
